@@ -614,6 +614,20 @@ fn handle_run_request(
                     }
                 }
                 Err(CommandError::Action(EvalAction::Replace(expr))) => {
+                    if env.stack.0.len() == 1 && env.current_frame().exprs_to_eval.is_empty() {
+                        // Nothing is stopped, so there is no value to
+                        // replace. Popping here would remove the
+                        // toplevel frame's initial value.
+                        return Response {
+                            kind: ResponseKind::RunCommand {
+                                message: "Nothing to replace: no evaluation is stopped.".to_owned(),
+                                stack_frame_name: Some(env.top_frame_name()),
+                            },
+                            position: None,
+                            id,
+                        };
+                    }
+
                     let stack_frame = env.stack.0.last_mut().unwrap();
 
                     stack_frame.evalled_values.pop();
